@@ -101,9 +101,39 @@ pub fn emit_in_bound(mant: u64, sci: i32, o: &Options, nb: i32, pb: i32) -> Resu
 pub mod emit {
     use super::*;
     crate::harnesses! {
+        /// emit functions into a buffer of exactly the documented size: up to 3 decimal digits, every f64 scientific exponent,
+        /// min_significant_digits 58, breaks -16..=-1 / 1..=16.
+        /// @prop C09 C14
+        /// @feat default radix_format
+        /// @bound mantissa < 1000; sci_exp in -324..=308; mantissa without trailing zero; min_significant_digits 58; breaks in -16..=-1 / 1..=16
+        /// @fn lexical-write-float::options::Options::buffer_size_const
+        /// @fn lexical-write-float::algorithm::{write_float_scientific, write_float_positive_exponent, write_float_negative_exponent}
+        /// @fn lexical-write-float::shared::write_exponent
+        /// @fn lexical-write-integer::jeaiii::{from_u64, from_u32} (fixed-size window at the cursor)
+        /// @assume dispatch rule of the write_float! macro restated in the harness (checked end to end by write_f32_exact_documented_buffer, thorough)
+        /// @timeout 1800
+        #[cfg_attr(kani, kani::unwind(70))]
+        fn emit_exact_documented_buffer_small() {
+            let mant: u64 = any();
+            let sci: i32 = any();
+            assume(mant >= 1 && mant < 1000 && mant % 10 != 0);   // to_decimal's postcondition: no trailing zero
+            assume(sci >= -324 && sci <= 308);
+            let mind: usize = any(); assume(mind == 58);
+            let nb: i32 = any(); assume(nb >= -16 && nb <= -1);
+            let pb: i32 = any(); assume(pb >= 1 && pb <= 16);
+            let o = opts_for(mind, 0, nb, pb, false);
+            vcheck!(o.is_some(), "these options are valid");
+            if let Some(o) = o {
+                let r = emit_in_bound(mant, sci, &o, nb, pb);
+                vcheck!(r.is_ok(), "a buffer of buffer_size_const bytes suffices for the emit functions");
+                cover(r.is_ok());
+            }
+        }
+
         /// emit functions into a buffer of exactly the documented size: up to 17 decimal digits, every f64 scientific exponent,
         /// min_significant_digits 58..=59, breaks -16..=-1 / 1..=16.
         /// @prop C09 C14
+        /// @tier thorough
         /// @feat default radix_format
         /// @bound mantissa < 10^17; sci_exp in -324..=308; mantissa without trailing zero; min_significant_digits in 58..=59; breaks in -16..=-1 / 1..=16
         /// @fn lexical-write-float::options::Options::buffer_size_const
@@ -111,7 +141,7 @@ pub mod emit {
         /// @fn lexical-write-float::shared::write_exponent
         /// @fn lexical-write-integer::jeaiii::{from_u64, from_u32} (fixed-size window at the cursor)
         /// @assume dispatch rule of the write_float! macro restated in the harness (checked end to end by write_f32_exact_documented_buffer, thorough)
-        /// @timeout 1800
+        /// @timeout 3600
         #[cfg_attr(kani, kani::unwind(70))]
         fn emit_exact_documented_buffer() {
             let mant: u64 = any();
